@@ -4,8 +4,15 @@ exit 0: property held on everything explored (KNOWN-FINDING lines allowed);
 exit 1: at least one `VIOLATION property=<id> replay=<path>` line;
 exit 2: infrastructure problem (toolchain, timeout, crash of the harness itself).
 """
-import argparse, importlib, os, sys, traceback
+import argparse, atexit, importlib, os, shutil, sys, tempfile, traceback
 sys.path.insert(0, os.path.dirname(os.path.abspath(__file__)))
+
+# every scratch directory of a run (common.scratch_dir, also in child processes) lives under one per-run root outside
+# /repo and /verif, which is removed when the run ends, however it ends
+_RUN_ROOT = tempfile.mkdtemp(prefix="verifrun.", dir=os.environ.get("VERIF_SCRATCH", "/var/tmp"))
+os.environ["VERIF_SCRATCH"] = _RUN_ROOT
+atexit.register(lambda: shutil.rmtree(_RUN_ROOT, ignore_errors=True))
+
 import common
 
 
